@@ -14,4 +14,4 @@ package shellparse
 //@ loop 1 invariant args: 0 <= len(args) && len(args) <= cap(args) && cap(args) < 1<<40 && (cap(args) > 0 ==> mine(args.data, cap(args)*16))
 //@ loop 1 decreases len(runes) - i
 //@ ensures C17 error-xor-result: result1.itab != nil ==> len(result0) == 0 && result0.data == nil
-//@ modifies nothing
+//@ modifies everything
